@@ -17,7 +17,7 @@ CANARY_RLIMIT = 20
 EXEC_FUNCS = ['DataNode::update_size_internal', 'Node::new', 'Node::new_data_node', 'Node::size', 'Node::rotate_left', 'Node::rotate_right',
               'Node::balance', 'Node::insert_simple', 'Node::remove_min', 'Node::remove_existing_node', 'Node::unwrap_to_data',
               'Node::join', 'Node::split', 'Node::join_without_key', 'WBTreeMap::new', 'WBTreeMap::insert', 'WBTreeMap::get',
-              'WBTreeMap::contains_key', 'WBTreeMap::is_empty', 'WBTreeMap::len', 'WBTreeMap::clear', 'WBTreeMap::remove', 'Node::union', 'WBTreeMap::union', 'Node::difference', 'WBTreeMap::difference', 'WBTreeMap::get_mut']
+              'WBTreeMap::contains_key', 'WBTreeMap::is_empty', 'WBTreeMap::len', 'WBTreeMap::clear', 'WBTreeMap::remove', 'Node::union', 'WBTreeMap::union', 'Node::difference', 'WBTreeMap::difference', 'WBTreeMap::get_mut', 'Iter::descend_left', 'Iter::next']
 
 DROPPED = ['#[cfg(test)] mod tests', 'impl Debug for Node / WBTreeMap', '`use` lines (re-stated in the header)',
            'fn apply_single_mapping / apply_mappings bodies (apply_mappings is declared by an empty contract; only reachable through Node::Mapping, which wf excludes)',
@@ -35,6 +35,7 @@ ALLOW_TRUSTED = [
     'external_body fn lemma_rc_cloned<T>',
     'external_body fn clone',
     'external_body struct PrefixTree2',
+    'uninterp fn am',
     'global size_of: global size_of usize == 8;',
 ]
 
@@ -88,6 +89,7 @@ def build(repo, canary=False):
     A.text(HEADER, 'header')
     SPEC('std_rc.rs')
     glue(PREFIXTREE2_STUB, 'PrefixTree2 stub')
+    A.iter_src = src
     for pat, nm in ((r'#\[derive\(Clone\)\]\s*struct DataNode<V: Clone>', 'DataNode'),
                     (r'#\[derive\(Clone\)\]\s*struct MappingNode<V: Clone>', 'MappingNode'),
                     (r'#\[derive\(Clone\)\]\s*#\[allow\(dead_code\)\]\s*enum Node<V: Clone>', 'Node'),
@@ -95,7 +97,7 @@ def build(repo, canary=False):
         A.item(src.item(pat, name=nm))
     SPEC('wb_vocab.rs')
     glue(DATANODE.header(), 'impl DataNode header (from source)')
-    env = {'I': I, 'emit': emit, 'glue': glue, 'SPEC': SPEC, 'DATANODE': DATANODE, 'NODE': NODE, 'MAP': MAP,
+    env = {'emit_plain': A.item, 'I': I, 'emit': emit, 'glue': glue, 'SPEC': SPEC, 'DATANODE': DATANODE, 'NODE': NODE, 'MAP': MAP,
            'MAPGLUE': lambda: mapglue(A, src), 'src': src, 'A': A, 'A_FILE': os.path.join(HERE, '..', 'annot', 'wb.py')}
     exec(compile(open(os.path.join(HERE, '..', 'annot', 'wb.py')).read(), 'annot/wb.py', 'exec'), env)
     A.text('} // verus!\nfn main() {}\n', 'footer')
@@ -117,8 +119,10 @@ impl Clone for PrefixTree2 {
 def mapglue(A, src):
     A.text('''
 #[verifier::external_body]
-fn apply_mappings(mappings: &[&PrefixTree2], val: u32) -> Option<u32> { unimplemented!() }
-''', 'apply_mappings declared by (empty) contract')
+fn apply_mappings(mappings: &[&PrefixTree2], val: u32) -> (r: Option<u32>)
+    ensures r == am(derefs(mappings@), val)
+{ unimplemented!() }
+''', 'apply_mappings declared by contract: its result is the abstract function `am` (uninterpreted)')
     A.item(src.item(r'#\[derive\(Clone\)\]\s*pub struct WBTreeMap<V: Clone>', name='WBTreeMap'))
     A.text(src.item(r'impl<V: Clone> WBTreeMap<V>\s*\{', name='WBTreeMap').header(), 'impl WBTreeMap header (from source)')
     A.text('''
